@@ -259,6 +259,24 @@ static int cmd_rc(const Args& a) {
 static Reg reg_rc("rc", cmd_rc);
 
 // ------------------------------------------------------------------ C09: RectClipLines
+// Every polyline is clipped alone (event Case).  Groups of K polylines are then clipped by multi-path calls on ONE RectClipLines64 object,
+// with filler paths mixed in (one-vertex paths inside / on / outside the rectangle, empty paths; each filler is also a Case of its own,
+// "fill":1, chosen deterministically from the polyline it follows so that a replay of the group reproduces it):
+//   Batch last=0 : o.Execute(all paths of the group, in order)                       idx = 1..n (indices into the group's Cases)
+//   Batch last=1 : o.Execute({first in-rectangle one-vertex filler, last polyline, first polyline})  - second Execute on the same object
+// with the native relation eqcat = (result == concatenation of the separate results in idx order).
+struct LEntry { Path64 real; Paths64 sep; bool fill; bool one_in_rect; };
+static Path64 make_filler(const RcCtx& c, Rng& fr, bool force_in_rect) {   // unit coordinates
+  const URect& u = c.ur; int t = force_in_rect ? (int)fr.range(0, 1) : (int)fr.range(0, 3);
+  switch (t) {
+    case 0: return Path64{Point64(fr.range(u.l + 1, u.r - 1), fr.range(u.t + 1, u.b - 1))};                       // strictly inside
+    case 1: { int k = (int)fr.range(0, 3);                                                                          // on the boundary
+      if (k == 0) return Path64{Point64(u.l, u.t)}; if (k == 1) return Path64{Point64(u.r, fr.range(u.t, u.b))};
+      if (k == 2) return Path64{Point64(fr.range(u.l, u.r), u.b)}; return Path64{Point64(u.l, fr.range(u.t, u.b))}; }
+    case 2: return Path64{Point64(u.l - fr.range(1, 5), u.t - fr.range(0, 4))};                                    // outside
+    default: return Path64();                                                                                       // empty
+  }
+}
 static int cmd_rcl(const Args& a) {
   Rng r((uint64_t)argi(a, "seed", 1));
   RcCtx c = make_ctx((int)argi(a, "emb", 0), (int)argi(a, "rect", 0)); g_band_rect = c.ur;
@@ -266,27 +284,46 @@ static int cmd_rcl(const Args& a) {
   std::ofstream os(args(a, "out", "/dev/stdout"));
   os << fam_event(c, "rcl", (int)argi(a, "rect", 0), false) << "\n";
   long long id = 0, ncalls = 0;
-  std::vector<Path64> pend_real; Paths64 pend_cat; std::set<std::pair<int64_t, int64_t>> pend_inputs;
-  auto flush = [&]() {
-    if (pend_real.empty()) return;
-    Paths64 all(pend_real.begin(), pend_real.end());
-    Paths64 out = RectClipLines(c.rreal, all); ++ncalls;
-    Ev e("Batch"); e.kn("k", (long long)pend_real.size()).kn("eqcat", out == pend_cat ? 1 : 0).kn("n", (long long)out.size())
-      .kv("Q", jpaths(paths_work(c, out))).kv("vm", vm_of(c, out, pend_inputs, false));
-    os << e.str() << "\n";
-    pend_real.clear(); pend_cat.clear(); pend_inputs.clear();
-  };
-  gen_family(a, r, false, [&](const Path64& unit) {
-    Path64 w = unit_to_work(c, unit), pr = path_real(c, w);
+  std::vector<LEntry> pend; int npoly = 0;
+  auto in_rect = [&](const Path64& pr) { return pr.size() == 1 && pr[0].x >= c.rreal.left && pr[0].x <= c.rreal.right && pr[0].y >= c.rreal.top && pr[0].y <= c.rreal.bottom; };
+  auto run_one = [&](const Path64& w, bool fill) {
+    Path64 pr = path_real(c, w);
     Paths64 out = RectClipLines(c.rreal, Paths64{pr}); ++ncalls;
     Paths64 out1 = RectClipLines(c.rreal, pr);   // single-path overload: must be the same thing
     std::set<std::pair<int64_t, int64_t>> inputs; for (auto& q : pr) inputs.insert({q.x, q.y});
-    Ev e("Case"); e.kn("id", ++id).kn("b", K > 0 ? 1 : 0).kv("L", jpath(w)).kn("n", (long long)out.size())
+    Ev e("Case"); e.kn("id", ++id).kn("b", K > 0 ? 1 : 0).kn("fill", fill ? 1 : 0).kv("L", jpath(w)).kn("n", (long long)out.size())
       .kv("Q", jpaths(paths_work(c, out))).kv("vm", vm_of(c, out, inputs, false)).kn("eq1", out == out1 ? 1 : 0).kn("same", out == Paths64{pr} ? 1 : 0);
     os << e.str() << "\n";
+    if (K > 0) pend.push_back({pr, out, fill, fill && in_rect(pr)});
+  };
+  auto batch_call = [&](RectClipLines64& o, const std::vector<int>& idx, bool last) {
+    Paths64 all, cat; std::set<std::pair<int64_t, int64_t>> inputs;
+    for (int i : idx) { const LEntry& le = pend[i - 1]; all.push_back(le.real); cat.insert(cat.end(), le.sep.begin(), le.sep.end()); for (auto& q : le.real) inputs.insert({q.x, q.y}); }
+    Paths64 out = o.Execute(all); ++ncalls;
+    Ev e("Batch"); e.kv("idx", jintsI(idx)).kn("last", last ? 1 : 0).kn("eqcat", out == cat ? 1 : 0).kn("n", (long long)out.size())
+      .kv("Q", jpaths(paths_work(c, out))).kv("vm", vm_of(c, out, inputs, false));
+    os << e.str() << "\n";
+  };
+  auto flush = [&]() {
+    if (pend.empty()) return;
+    RectClipLines64 o(c.rreal);
+    std::vector<int> idx; for (int i = 1; i <= (int)pend.size(); ++i) idx.push_back(i);
+    // second Execute on the same object: an in-rectangle one-vertex path first, then the last and the first polyline
+    std::vector<int> idx2; int firstpoly = 0, lastpoly = 0;
+    for (int i = 1; i <= (int)pend.size(); ++i) { if (pend[i - 1].one_in_rect && idx2.empty()) idx2.push_back(i); if (!pend[i - 1].fill) { if (!firstpoly) firstpoly = i; lastpoly = i; } }
+    if (lastpoly) idx2.push_back(lastpoly); if (firstpoly && firstpoly != lastpoly) idx2.push_back(firstpoly);
+    batch_call(o, idx, idx2.empty());
+    if (!idx2.empty()) batch_call(o, idx2, true);
+    pend.clear(); npoly = 0;
+  };
+  gen_family(a, r, false, [&](const Path64& unit) {
+    run_one(unit_to_work(c, unit), false);
     if (K > 0) {
-      pend_real.push_back(pr); pend_cat.insert(pend_cat.end(), out.begin(), out.end()); for (auto& q : pr) pend_inputs.insert({q.x, q.y});
-      if ((int)pend_real.size() >= K) flush();
+      ++npoly;
+      Rng fr(hash_paths(Paths64{unit}) ^ 0x5EEDULL);
+      bool first = npoly == 1;
+      if (first || fr.range(0, 1) == 0) run_one(unit_to_work(c, make_filler(c, fr, first)), true);
+      if (npoly >= K) flush();
     }
   });
   flush();
